@@ -559,6 +559,12 @@ impl<C: Suite> Consume<Ctx<C>> for AggregateSignature<C> {
         let _ = self.verify(&[(x.pk, x.msg.clone()), (x.sk2.public_key(), b"m2".to_vec())]);
         let _ = self.verify::<Vec<u8>>(&[]);
         let _ = self.verify(&[(x.pk, x.msg.clone())]);
+        // repeated messages of every short length (the Basic scheme reports them; nothing may abort)
+        for l in [0usize, 1, 7, 8, 9, 64] {
+            let m = vec![0x61u8; l];
+            let _ = self.verify(&[(x.pk, m.clone()), (x.sk2.public_key(), m.clone())]);
+            let _ = self.verify(&[(x.pk, m.clone()), (x.sk2.public_key(), b"other".to_vec()), (x.pk, m.clone())]);
+        }
     }
 }
 impl<C: Suite> Consume<Ctx<C>> for MultiSignature<C> {
@@ -969,10 +975,23 @@ pub fn generic_entries<C: Suite>(seed: u64, full: bool) -> Vec<Box<dyn TyDyn + S
     }
     out.push(entry("ProofOfKnowledgeTimestamp", g, &x, false, pokts));
     // share containers: every identifier of a (2,255) split (or a few when not `full`)
-    let n_sh = 255;
-    let all = x.sk.split_with_rng(2, n_sh, rand_chacha::ChaCha20Rng::from_seed(data32(seed, "registry-255"))).unwrap();
-    let pick: Vec<usize> = if full { (0..n_sh).collect() } else { vec![0, 1, 126, 127, 128, 253, 254] };
-    let shs: Vec<(String, SecretKeyShare<C>)> = pick.iter().map(|i| (format!("share id {}", all[*i].0.identifier()), all[*i].clone())).collect();
+    // full: every identifier of a real (2,255) split; otherwise the shares of a (2,3) split relabelled with edge
+    // identifiers (any (identifier, value) pair is a valid value of the container types), so that only the check
+    // whose property quantifies over all identifiers depends on 255-share splits working
+    let shs: Vec<(String, SecretKeyShare<C>)> = if full {
+        let all = x.sk.split_with_rng(2, 255, rand_chacha::ChaCha20Rng::from_seed(data32(seed, "registry-255"))).unwrap();
+        all.iter().map(|s| (format!("share id {}", s.0.identifier()), s.clone())).collect()
+    } else {
+        [1u8, 2, 127, 128, 129, 254, 255]
+            .iter()
+            .enumerate()
+            .map(|(i, id)| {
+                let mut s = x.shares[i % x.shares.len()].clone();
+                *s.0.identifier_mut() = *id;
+                (format!("share id {}", id), s)
+            })
+            .collect()
+    };
     out.push(entry("SecretKeyShare", g, &x, false, shs.clone()));
     out.push(entry("PublicKeyShare", g, &x, true, shs.iter().map(|(n, s)| (n.clone(), s.public_key().unwrap())).collect()));
     let mut sshs: Vec<(String, SignatureShare<C>)> = vec![];
@@ -994,7 +1013,7 @@ pub fn generic_entries<C: Suite>(seed: u64, full: bool) -> Vec<Box<dyn TyDyn + S
         shs.iter().map(|(n, s)| (n.clone(), ElGamalDecryptionShare::<C>(<C as BlsSignatureCore>::public_key_share_with_generator(&s.0, x.eg.c1).unwrap()))).collect(),
     ));
     // ciphertexts: empty, short, and (full) 64 KiB payloads, all schemes
-    let lens: Vec<usize> = if full { vec![0, 5, 33, 65536] } else { vec![0, 5, 33] };
+    let lens: Vec<usize> = if full { vec![0, 5, 33, 126, 127, 128, 200, 16383, 16384, 65536] } else { vec![0, 5, 33, 127, 200] };
     let mut scs = vec![];
     let mut tls = vec![];
     let ent = entropy_stream(seed, "registry-cts", 64);
